@@ -22,6 +22,187 @@ fn history_of(case: &Value) -> Vec<usize> {
         .unwrap_or_default()
 }
 
+// ---------------------------------------------------------------------------------------------
+// Focus menus: small themed menus explored one level deeper than the general menu. They put the
+// constructs the general menu lacks under the same oracle: extensions that carry all three
+// component kinds at once, `implements` on interface extensions, explicit schema definitions next
+// to unrelated types with default root names, directives on unions and input objects,
+// descriptions at every site, redefined built-in directives.
+// ---------------------------------------------------------------------------------------------
+
+const DIR_D: &str = "directive @d(n:Int) repeatable on OBJECT|INTERFACE|ENUM|SCALAR|SCHEMA|UNION|INPUT_OBJECT|FIELD_DEFINITION";
+
+const FOCUS: &[(&str, &[&str])] = &[
+    (
+        "interface-extensions",
+        &[
+            DIR_D,
+            "interface J{f:Int}",
+            "interface I{f:Int}",
+            "extend interface I @d(n:1)",
+            "extend interface I implements J @d(n:2)",
+            "extend interface I implements J",
+            "extend interface I{g:Int}",
+            "extend interface I @d(n:3){h:Int @d(n:4)}",
+        ],
+    ),
+    (
+        "object-extensions",
+        &[
+            DIR_D,
+            "type Q{f:Int}",
+            "interface I{f:Int}",
+            "interface J{f:Int}",
+            "extend type Q @d(n:1)",
+            "extend type Q implements I",
+            "extend type Q implements J @d(n:2)",
+            "extend type Q{a:Int}",
+            "extend type Q implements I & J @d(n:3){b(x:Int y:[Int!]=[1]):Int}",
+        ],
+    ),
+    (
+        "schema-roots",
+        &[
+            DIR_D,
+            "schema{query:Query}",
+            "schema @d(n:2){query:Q mutation:Mutation}",
+            "type Query{q:Int}",
+            "type Mutation{m:Int}",
+            "type Subscription{s:Int}",
+            "type Q{f:Int}",
+            "extend schema{mutation:Mutation}",
+            "extend schema @d(n:1)",
+            "extend schema @d(n:3){subscription:Subscription}",
+        ],
+    ),
+    (
+        "union-enum-input-extensions",
+        &[
+            DIR_D,
+            "type Q{f:Int}",
+            "type R{f:Int}",
+            "union U=Q",
+            "extend union U @d(n:1)",
+            "extend union U @d(n:2)=R",
+            "enum E{A}",
+            "extend enum E @d(n:1)",
+            "extend enum E @d(n:2){B C}",
+            "input In{x:Int}",
+            "extend input In @d(n:1)",
+            "extend input In @d(n:2){y:Int=1 z:In}",
+        ],
+    ),
+    (
+        "descriptions-and-built-ins",
+        &[
+            "\"d d\" directive @d(\"arg\" n:Int=1) repeatable on OBJECT|ENUM_VALUE|FIELD_DEFINITION|ARGUMENT_DEFINITION|INPUT_FIELD_DEFINITION",
+            "\"type\" type Q @d{\"field\" f(\"arg\" x:Int=1 @d):Int @d}",
+            "\"\"\"\nblock\n  indented\n\"\"\" enum E{\"value\" A @d B @deprecated(reason:\"r\")}",
+            "\"in\" input In{\"inf\" x:Int=1 @d}",
+            "\"sc\" scalar S @specifiedBy(url:\"u\")",
+            "\"un\" union U=Q",
+            "\"schema\" schema{query:Q}",
+            "\"iface\" interface I{\"if\" f:Int}",
+            "directive @deprecated(reason:String=\"x\") on FIELD_DEFINITION|ENUM_VALUE",
+            "directive @specifiedBy(url:String!) on SCALAR",
+            "directive @include(if:Boolean!) on FIELD|FRAGMENT_SPREAD|INLINE_FRAGMENT",
+            "extend type Q{\"ext field\" g:Int @deprecated}",
+        ],
+    ),
+];
+
+fn focus_case_json(menu: usize, h: &[usize]) -> Value {
+    let texts: Vec<&str> = h.iter().map(|&i| FOCUS[menu].1[i]).collect();
+    json!({ "focus": menu, "history": h, "text": texts.join("\n") })
+}
+
+/// Evaluate one history of a focus menu (same oracle as `run_case`, no known-finding classifier).
+fn run_focus(menu: usize, h: &[usize], st: &mut Stats) -> Option<u128> {
+    st.states += 1;
+    let size = (h.len() as u64) << 32 | h.iter().fold(0u64, |a, &i| (a * 32 + i as u64) & 0xffff_ffff);
+    let items = FOCUS[menu].1;
+    let text = h.iter().map(|&i| items[i]).collect::<Vec<_>>().join("\n");
+    st.transitions += 1;
+    let built = match vcore::catch(|| hist::build_sources(&[text.as_str()])) {
+        Ok(b) => b,
+        Err(p) => {
+            st.fail_simple("panic-build", focus_case_json(menu, h), format!("building panicked: {p}"), size);
+            return None;
+        }
+    };
+    if !built.ok() {
+        st.outcome("focus: build-error (leaf)");
+        return None;
+    }
+    let n_ext = h.iter().filter(|&&i| items[i].starts_with("extend")).count();
+    if n_ext > 0 {
+        st.nontrivial += 1;
+    }
+    let s = built.schema;
+    let r = vcore::catch(|| roundtrip(&s));
+    st.transitions += 5;
+    let (canon, broken, v1) = match r {
+        Ok(x) => x,
+        Err(p) => {
+            st.fail_simple("panic-roundtrip", focus_case_json(menu, h), format!("serialize/parse/validate panicked: {p}"), size);
+            return None;
+        }
+    };
+    if broken.is_empty() {
+        st.outcome(&format!(
+            "focus {}: round-trip ok, {}, {}",
+            FOCUS[menu].0,
+            if v1 { "valid" } else { "invalid" },
+            match n_ext {
+                0 => "no extension",
+                1 => "1 extension",
+                _ => "2+ extensions",
+            }
+        ));
+        return Some(canon);
+    }
+    let sig = format!("focus:{}", broken.iter().map(|b| b.0).collect::<Vec<_>>().join("+"));
+    let detail = broken.into_iter().map(|b| b.1).collect::<Vec<_>>().join("; ");
+    st.fail_simple(&sig, focus_case_json(menu, h), detail, size);
+    Some(canon)
+}
+
+/// The oracle: serialize, re-parse, re-serialize, validate both; returns (canonical state,
+/// broken parts, was valid).
+fn roundtrip(s: &Schema) -> (u128, Vec<(&'static str, String)>, bool) {
+    let t = s.to_string();
+    let fp = hist::fingerprint(s, false);
+    let (s2, errs2) = match Schema::parse(t.as_str(), "roundtrip.graphql") {
+        Ok(s2) => (s2, Vec::new()),
+        Err(e) => {
+            let msgs: Vec<String> = e.errors.iter().map(|d| d.error.to_string()).collect();
+            (e.partial, msgs)
+        }
+    };
+    let t2 = s2.to_string();
+    let fp2 = hist::fingerprint(&s2, false);
+    let equal = s2 == *s;
+    let v1 = s.clone().validate().is_ok();
+    let v2 = s2.clone().validate().is_ok();
+    let mut broken: Vec<(&'static str, String)> = Vec::new();
+    if !errs2.is_empty() {
+        broken.push(("reparse-errors", format!("serialized form {:?} re-parses with build errors {errs2:?}", vcore::short(&t))));
+    }
+    if !equal {
+        broken.push(("not-equal", format!("re-parsed schema != original; serialized form {:?}", vcore::short(&t))));
+    }
+    if fp2 != fp {
+        broken.push(("order", format!("order fingerprint differs after the round-trip: {} (serialized form {:?})", fp.first_difference(&fp2), vcore::short(&t))));
+    }
+    if t2 != t {
+        broken.push(("text-drift", format!("second serialization differs: {:?} then {:?}", vcore::short(&t), vcore::short(&t2))));
+    }
+    if v1 && !v2 {
+        broken.push(("validity-lost", format!("schema was valid, its round-trip is not; serialized form {:?}", vcore::short(&t))));
+    }
+    (fp.hash(), broken, v1)
+}
+
 /// Evaluate one history. Returns the canonical state (fingerprint hash) if it built cleanly.
 fn run_case(h: &[usize], kf_open: bool, st: &mut Stats) -> Option<u128> {
     st.states += 1;
@@ -148,6 +329,11 @@ fn main() {
     }
     if let Some(case) = chk.replay_case() {
         let mut st = Stats::default();
+        if let Some(m) = case["focus"].as_u64() {
+            run_focus(m as usize, &history_of(&case), &mut st);
+            chk.absorb(st);
+            chk.finish_replay();
+        }
         run_case(&history_of(&case), kf_open, &mut st);
         chk.absorb(st);
         chk.finish_replay();
@@ -179,11 +365,41 @@ fn main() {
         depth,
         canon.len()
     );
+    // focus menus, one level deeper
+    let fdepth = depth + 1;
+    let mut focus_bounds = Vec::new();
+    for (m, (name, items)) in FOCUS.iter().enumerate() {
+        for t in items.iter() {
+            if let Err(e) = apollo_compiler::ast::Document::parse(*t, "focus.graphql") {
+                vcore::machinery_error(&format!("focus menu item {t:?} does not parse: {}", e.errors));
+            }
+        }
+        let k = items.len();
+        let total = hist::history_count(k, fdepth);
+        let (stats, canon): (Stats, BTreeSet<u128>) = hist::par_sweep_acc(
+            total,
+            512,
+            |i, st, acc: &mut BTreeSet<u128>| {
+                let mut h = Vec::new();
+                hist::nth_history(k, i, &mut h);
+                if let Some(c) = run_focus(m, &h, st) {
+                    acc.insert(c);
+                }
+            },
+            hist::merge_sets,
+        );
+        chk.absorb(stats);
+        println!("focus menu {name}: histories {total} (depth <= {fdepth}), distinct canonical states {}", canon.len());
+        chk.stats.count(&format!("focus {name}: histories"), total);
+        chk.stats.count(&format!("focus {name}: distinct canonical states"), canon.len() as u64);
+        focus_bounds.push(json!({"name": name, "menu": items, "max_depth": fdepth, "histories": total, "distinct_canonical_states": canon.len()}));
+    }
     chk.bounds = json!({
         "menu": MENU[..k].iter().map(|i| i.text).collect::<Vec<_>>(),
         "max_depth": depth,
         "histories": total,
         "distinct_canonical_states": canon.len(),
+        "focus_menus": focus_bounds,
     });
     chk.rule = "every sequence of <= max_depth menu items (breadth-first order), replayed as one source text on a fresh \
                 Schema::builder(); a history whose build reports errors is a leaf; non-trivial = error-free histories \
@@ -191,10 +407,14 @@ fn main() {
         .into();
     chk.assumptions = vec![
         "the order fingerprint renders leaves (types, values, directive applications) with apollo's Display; lists and maps are walked by the harness in iteration order".into(),
-        "descriptions and `&`-separated multi-interface lists do not occur in the menu".into(),
+        "descriptions, `&`-separated interface lists, directives on unions / input objects and redefined built-in directives occur in the focus menus only".into(),
     ];
     chk.finish(&|case| {
         let mut st = Stats::default();
+        if let Some(m) = case["focus"].as_u64() {
+            run_focus(m as usize, &history_of(case), &mut st);
+            return !st.failures.is_empty();
+        }
         run_case(&history_of(case), kf_open, &mut st);
         !st.failures.is_empty()
     })
